@@ -352,6 +352,7 @@ Section NewCounter.
     pose proof (head_off_val hdr (hash name)) as Eho.
     pose proof (first_off_val hdr) as Efo.
     unfold new_counter. change c_maxNameLen with 4096.
+    destruct (N.eqb_spec (len name) 0) as [X|_]; [lia|].
     destruct (N.ltb_spec 4096 (len name)) as [X|_]; [lia|].
     unfold lookup_sz, load32_sz.
     destruct (N.leb_spec (len bs) (head_off hdr (hash name))) as [X|_]; [lia|].
